@@ -28,11 +28,11 @@ func TestMain(m *testing.M) {
 
 // conn is the model connection: bytes become visible chunk by chunk.
 type conn struct {
-	buf      []byte // arrived, not yet consumed
-	pending  [][]byte
-	nilShort bool  // Peek(n) beyond the buffered bytes returns (nil, err) instead of (short prefix, err)
-	failAt   int   // for Read: inject an error after this many octets have been delivered (-1: never)
-	failErr  error
+	buf       []byte // arrived, not yet consumed
+	pending   [][]byte
+	nilShort  bool // Peek(n) beyond the buffered bytes returns (nil, err) instead of (short prefix, err)
+	failAt    int  // for Read: inject an error after this many octets have been delivered (-1: never)
+	failErr   error
 	readSoFar int
 }
 
